@@ -134,6 +134,14 @@ def main(tier):
         nh += cnt
         for sig, det in res:
             rep.violation(sig, det)
+    from .c01 import _short_writes
+    nshort = 0
+    for cnt, res in pmap(_short_writes, [(("store", "p", "L", "add:sha224"), "q=B"), (("store", "p", "A", "ok:sha3_256"), "q=A")]):
+        nshort += cnt
+        for sig, det in res:
+            if "digest" in sig["what"]:
+                rep.violation(sig, det)
+    rep.coverage["short_write_runs"] = nshort
     rep.coverage.update({"combination_cases": n, "distinct_key_sets": len(distinct), "get_hex_digest_cases": nh,
                          "spellings": {a: spellings(a) for a in ALL_ALGOS}})
     run_spec(rep, C02Spec(tier), "one-instance-histories", max_depth=8 if tier == "quick" else 14,
